@@ -146,7 +146,7 @@ def replace_driver(run):
                 run.check([u, vals, kw], False, expected="a vector", got=f"raised {type(e).__name__}: {e}", clause="dt.replace answers")
 
 
-STRINGS = ["", "a", "ab12", "a-b-c", "  x ", "A1b2"]
+STRINGS = ["", "a", "ab12", "a-b-c", "  x ", "A1b2", " ", "\t\n"]      # whitespace-only strings are NOT missing
 PATTERNS = ["a", r"\d+", "", "b*", "^a", "(a)(b)?", "-"]
 RXF = {
     "findall": lambda p, s: re.findall(p, s), "fullmatch": lambda p, s: re.fullmatch(p, s), "match": lambda p, s: re.match(p, s),
@@ -202,3 +202,30 @@ def regex_driver(name):
 
 for _n in RXF:
     regex_driver(_n)
+
+
+@driver("dataiter/vector.py::DtProxy.__init__")
+def dt_proxy_driver(run):
+    """every x.dt.<f>(...) equals dt.<f>(x, ...) in values, missing positions AND dtype - also after x was edited in place"""
+    n = 2
+    run.bound = "datetime vectors of <= 2 elements (units D, s, us; NaT) x every dt function reachable through the proxy; repeated after an in-place edit"
+    calls = {nm: (lambda v, nm=nm: getattr(v.dt, nm)(), lambda v, nm=nm: getattr(dt, nm)(v)) for nm in PY}
+    calls["replace"] = (lambda v: v.dt.replace(year=2001), lambda v: dt.replace(v, year=2001))
+    calls["to_string"] = (lambda v: v.dt.to_string("%Y-%m-%d"), lambda v: dt.to_string(v, "%Y-%m-%d"))
+    for u, vals in run.inputs(dt_vectors(n)):
+        vals = [v for v in vals if not v.startswith(("0001", "9999", "2020-02-29"))]
+        x = mkdt(u, vals)
+        for nm, (via_proxy, direct) in calls.items():
+            if nm in TIME_OF_DAY and u == "D":
+                continue
+            try:
+                for phase in ("fresh", "after an in-place edit"):
+                    a, b = via_proxy(x), direct(x)
+                    ok = str(a.dtype) == str(b.dtype) and len(a) == len(b) and all((_missing(p) and _missing(q)) or p == q for p, q in zip(a, b))
+                    run.check([u, vals], ok, expected=[str(b.dtype), list(b)], got=[str(a.dtype), list(a)], clause=f"Vector.dt.{nm} == dt.{nm} ({phase})")
+                    if len(x) and phase == "fresh":
+                        x = x.copy()
+                        x.dt                     # make sure the proxy exists before the edit
+                        x[0] = np.datetime64("2011-11-11") if not np.isnat(x[0]) else np.datetime64("2012-12-12")
+            except Exception as e:
+                run.check([u, vals], False, expected="same result through the proxy", got=f"raised {type(e).__name__}: {e}", clause=f"Vector.dt.{nm} answers")
